@@ -157,12 +157,15 @@ func (m *ModulusBasic) ModDiv(out, x, y *Nat) ct.Bool {
 }
 
 func (m *ModulusBasic) modInvOdd(out, x *Nat) ct.Bool {
-	(*saferith.Nat)(out).ModInverse(
+	// out may alias x, which the check below still needs: invert into a local.
+	var inv Nat
+	(*saferith.Nat)(&inv).ModInverse(
 		(*saferith.Nat)(x),
 		(*saferith.Modulus)(m),
 	)
 	var shouldBeOne Nat
-	m.ModMul(&shouldBeOne, out, x)
+	m.ModMul(&shouldBeOne, &inv, x)
+	out.Set(&inv)
 	return shouldBeOne.IsOne()
 }
 
